@@ -74,11 +74,25 @@ func runProp(d *propDef, repo string, overlay map[string][]byte, tier string) (r
 			err = fmt.Errorf("analyser panic: %v\n%s", x, debug.Stack())
 		}
 	}()
-	p, err = Load(repo, overlay, false, "")
+	norm, notes := Normalize(repo, overlay)
+	p, err = Load(repo, norm, false, "")
+	if err != nil && len(notes) > 0 {
+		// the normalised program must never be the reason for a failure: fall back to the tree as it is
+		var err2 error
+		SplicedHelpers = map[string]bool{}
+		p, err2 = Load(repo, overlay, false, "")
+		if err2 == nil {
+			notes = append(notes, "normalised source did not load ("+firstLine(err.Error())+"); analysed the tree as it is")
+			err = nil
+		}
+	}
 	if err != nil {
 		return nil, nil, err
 	}
 	rep = NewReport(d.ID)
+	for _, n := range notes {
+		rep.Infof("normalisation: %s", n)
+	}
 	rep.Assume = append(rep.Assume, d.Assume...)
 	d.Run(p, rep, tier)
 	return rep, p, nil
@@ -91,7 +105,26 @@ func main() {
 	verif := flag.String("verif", "/verif", "verif root (known_findings.json, evidence/, checker/mutants)")
 	list := flag.Bool("list", false, "list obligations")
 	mutOnly := flag.String("mutant", "", "run only on this mutant (debug)")
+	dumpFuncs := flag.Bool("dump-funcs", false, "print the function keys of the tree (to regenerate known_funcs.txt)")
+	showNorm := flag.Bool("show-normalized", false, "print the normalised source of files changed by the de-extraction step (debug)")
 	flag.Parse()
+	if *dumpFuncs {
+		if err := DumpFuncs(*repo); err != nil {
+			fmt.Fprintln(os.Stderr, err)
+			os.Exit(2)
+		}
+		os.Exit(0)
+	}
+	if *showNorm {
+		ov, notes := Normalize(*repo, nil)
+		for _, n := range notes {
+			fmt.Println("//", n)
+		}
+		for f, b := range ov {
+			fmt.Printf("==== %s\n%s\n", f, b)
+		}
+		os.Exit(0)
+	}
 	start := time.Now()
 	d := props[*prop]
 	if d == nil {
